@@ -6,6 +6,9 @@ import (
 	"net"
 	"net/netip"
 	"sync"
+
+	"github.com/mdlayher/ndp"
+	"golang.org/x/net/ipv6"
 )
 
 // Seams used only by the verification build (see /verif/DESIGN.md §2.1). The
@@ -112,5 +115,41 @@ func verifInterfaceByName(name string) (*net.Interface, error) {
 func VerifSetInterfaceByName(f func(string) (*net.Interface, error)) {
 	verifMu.Lock()
 	verifSeam.byName = f
+	verifMu.Unlock()
+}
+
+// A verifListenConn is what dialNDP and its callers need from the *ndp.Conn that
+// ndp.Listen returns.
+type verifListenConn interface {
+	verifNDPConn
+	SetICMPFilter(f *ipv6.ICMPFilter) error
+	SetControlMessage(cf ipv6.ControlFlags, on bool) error
+	JoinGroup(group netip.Addr) error
+}
+
+// VerifListenConn is the exported name of verifListenConn.
+type VerifListenConn = verifListenConn
+
+var verifListen func(*net.Interface, ndp.Addr) (verifListenConn, netip.Addr, error)
+
+// verifNDPListen stands in for ndp.Listen inside the staged copy of dialNDP.
+func verifNDPListen(ifi *net.Interface, addr ndp.Addr) (verifListenConn, netip.Addr, error) {
+	verifMu.RLock()
+	f := verifListen
+	verifMu.RUnlock()
+	if f == nil {
+		c, ip, err := ndp.Listen(ifi, addr)
+		if err != nil {
+			return nil, ip, err
+		}
+		return c, ip, nil
+	}
+	return f(ifi, addr)
+}
+
+// VerifSetNDPListen replaces (nil: restores) ndp.Listen as seen by dialNDP.
+func VerifSetNDPListen(f func(*net.Interface, ndp.Addr) (VerifListenConn, netip.Addr, error)) {
+	verifMu.Lock()
+	verifListen = f
 	verifMu.Unlock()
 }
